@@ -1062,6 +1062,14 @@ impl EvCell {
         x.sim.server_frame(tick).map_err(|v| self.own(v))?;
         self.scan_server_wire(x)?;
         self.check_server_observations(x)?;
+        if self.oracles.c09 {
+            if let Some((c, idx)) = x.sim.acks.spurious_acks.first() {
+                return Err(self.v(
+                    "stale-acknowledgement",
+                    format!("c{c} acknowledged mutate message #{idx}, which it was never handed in its current session (something of an earlier session was applied)"),
+                ));
+            }
+        }
         if self.oracles.c09 && x.sim.orphan_messages > 0 {
             return Err(self.v(
                 "message-for-closed-connection",
